@@ -71,19 +71,19 @@ def make_storage(spec):
     """spec: {kind: battery|battery_system|supercap|supercap_system, …}"""
     k = spec["kind"]
     if k.startswith("battery"):
-        b = Battery(name=spec.get("name", "bat"), rated_capacity_kwh=spec["capacity"], charging_rate_c=spec["c_rate_c"],
+        b = Battery(name=spec.get("name", "bat") + ("_cell" if k == "battery_system" else ""), rated_capacity_kwh=spec["capacity"], charging_rate_c=spec["c_rate_c"],
                     discharge_rate_c=spec["c_rate_d"], soc0=spec["soc0"], eff_charging=spec["eta_c"],
                     eff_discharging=spec["eta_d"], switchboard_id=SwbId(spec.get("swb", 1)))
         if k == "battery":
             return b
-        return BatterySystem(name=spec.get("name", "bat") + "_sys", battery=b, converter=make_converter(spec["converter"]),
+        return BatterySystem(name=spec.get("name", "bat"), battery=b, converter=make_converter(spec["converter"]),
                              switchboard_id=SwbId(spec.get("swb", 1)))
-    s = SuperCapacitor(name=spec.get("name", "cap"), rated_capacity_wh=spec["capacity"], rated_power=Power_kW(spec["rated"]),
+    s = SuperCapacitor(name=spec.get("name", "cap") + ("_cell" if k == "supercap_system" else ""), rated_capacity_wh=spec["capacity"], rated_power=Power_kW(spec["rated"]),
                        soc0=spec["soc0"], eff_charging=spec["eta_c"], eff_discharging=spec["eta_d"],
                        switchboard_id=SwbId(spec.get("swb", 1)))
     if k == "supercap":
         return s
-    return SuperCapacitorSystem(name=spec.get("name", "cap") + "_sys", supercapacitor=s,
+    return SuperCapacitorSystem(name=spec.get("name", "cap"), supercapacitor=s,
                                 converter=make_converter(spec["converter"]), switchboard_id=SwbId(spec.get("swb", 1)))
 
 
